@@ -572,18 +572,18 @@ def replay(ctx, case):
 
 def run(ctx):
     cases = []
-    for layout in ((2,), (3,), (2, 2), (1, 1, 1)) + (((2, 1, 1), (4,)) if not ctx.quick else ()):
+    for layout in ((2,), (3,), (2, 2), (1, 1, 1)) + (((2, 1, 1), (4,), (5,), (3, 2), (2, 3), (2, 2, 1), (1, 1, 1, 1)) if not ctx.quick else ()):
         cases.append({'kind': 'vcf', 'layout': layout})
     cases.append({'kind': 'vcf', 'layout': (2, 1), 'dp': True})
     cases.append({'kind': 'snpfile'})
-    for layout, sub in (((3,), (2,)), ((3,), (1,)), ((3,), (3,)), ((2, 2), (1, 2)), ((2, 2), (1, 1)), ((4,), (2,))) + ((((3, 2), (2, 1)), ((5,), (3,))) if not ctx.quick else ()):
+    for layout, sub in (((3,), (2,)), ((3,), (1,)), ((3,), (3,)), ((2, 2), (1, 2)), ((2, 2), (1, 1)), ((4,), (2,))) + ((((3, 2), (2, 1)), ((5,), (3,)), ((5,), (2,)), ((6,), (3,)), ((3, 3), (2, 2)), ((4, 2), (2, 1)), ((2, 2, 2), (1, 1, 1))) if not ctx.quick else ()):
         cases.append({'kind': 'subsample', 'layout': layout, 'subsample': sub})
     cases.append({'kind': 'chunks'})
-    for k in (1, 2, 3, 4):
+    for k in (1, 2, 3, 4) + ((5, 6) if not ctx.quick else ()):
         cases.append({'kind': 'bootstrap', 'nchunks': k})
-    for n in (2, 3, 4, 5, 6) + ((8, 12) if not ctx.quick else ()):
+    for n in (2, 3, 4, 5, 6) + ((7, 8, 9, 10, 12, 16, 20) if not ctx.quick else ()):
         cases.append({'kind': 'stats1d', 'n': n})
-    for ns in ((2, 3), (3, 3), (2, 2), (4, 2), (1, 5), (2, 2, 3)) + (((2, 7), (3, 4, 2)) if not ctx.quick else ()):
+    for ns in ((2, 3), (3, 3), (2, 2), (4, 2), (1, 5), (2, 2, 3)) + (((2, 7), (3, 4, 2), (5, 5), (1, 1), (6, 2), (3, 3, 3), (2, 2, 2, 2), (4, 3, 2)) if not ctx.quick else ()):
         cases.append({'kind': 'fst', 'ns': ns})
     explore.pmap(ctx, _dispatch, cases, chunk=1)
     ctx.tick(evaluations=len(cases))
